@@ -333,7 +333,9 @@ func (s *indexKVStore) getOrCreateValue(bucketID uint32, key []byte,
 		}
 		if bucket != nil {
 			verifhook.Yield("index.kvstore.beforeCacheBucket")
-			s.bucketCache.Add(bucketID, bucket)
+			if !s.cacheBucket(bucketID, bucket, snapshot) {
+				defer bucket.Release()
+			}
 		}
 	}
 	if bucket != nil {
@@ -354,6 +356,19 @@ func (s *indexKVStore) getOrCreateValue(bucketID uint32, key []byte,
 		return 0, false, false, err
 	}
 	return id, true, isNew, nil
+}
+
+// cacheBucket caches the bucket if it was read from current snapshot, else a flush purged the cache meanwhile
+// and the old bucket(without the keys of that flush) must not come back.
+func (s *indexKVStore) cacheBucket(bucketID uint32, bucket *model.TrieBucket, snapshot version.Snapshot) bool {
+	s.lock.RLock()
+	defer s.lock.RUnlock()
+
+	if s.snapshot != snapshot {
+		return false
+	}
+	s.bucketCache.Add(bucketID, bucket)
+	return true
 }
 
 // createValue creates new value, if the key was not created by another caller after lookup.
